@@ -1,11 +1,15 @@
 use crate::rt::{Acc, CheckMeta, Ctx};
 
+pub mod c01;
 pub mod c02;
+pub mod c03;
 pub mod pools;
 
 pub fn dispatch(ctx: &Ctx) -> Option<(CheckMeta, Acc)> {
     match ctx.prop.as_str() {
+        "C01" => Some(c01::run(ctx)),
         "C02" => Some(c02::run(ctx)),
+        "C03" => Some(c03::run(ctx)),
         _ => None,
     }
 }
